@@ -159,6 +159,19 @@ pub fn run(rep: &mut Rep) {
                 }
             }
         };
+        // a share of the corpus lacks one (possibly required) member: acceptance must agree too
+        let bytes = if i % 4 == 1 {
+            match crate::cbor::parse_canonical(&bytes) {
+                Ok(crate::cbor::V::M(mut m)) if !m.is_empty() => {
+                    let k = rng.usize(m.len());
+                    m.remove(k);
+                    encode(&crate::cbor::V::M(m))
+                }
+                _ => bytes,
+            }
+        } else {
+            bytes
+        };
         if !rep.begin(&format!("rdec/{}", name)) {
             continue;
         }
